@@ -62,93 +62,70 @@ theorem searchChildren_length (cs : List Obj) (q : Box) :
 theorem searchChildren_nodup (cs : List Obj) (q : Box) (h : cs.Nodup) : (searchChildren cs q).Nodup :=
   h.sublist (searchChildren_sublist cs q)
 
+/-- The model's loops ARE `Search` followed by a scan of what it found: a part is contained by /
+    intersects some child found by `Search(part.Rect())`; `WithinRect` counts the children found by
+    `Search(rect)` up to the first failure and compares with the number of ALL children. -/
+theorem coll_methods_via_search (g : Obj) (r : Box) :
+    containsSome cs g = (searchChildren cs g.rect).any (fun c => c.contains g) ∧
+    intersectsSome cs g = (searchChildren cs g.rect).any (fun c => c.intersects g) ∧
+    (Obj.coll k cs ex idx).intersectsRect r = (searchChildren cs r).any (fun c => c.intersectsRect r) ∧
+    (Obj.coll k cs ex idx).withinRect r =
+      (if (Obj.coll k cs ex idx).empty then false
+       else withinCount (searchChildren cs r) (fun c => c.withinRect r) == cs.length) := by
+  refine ⟨containsSome_eq_any cs g, intersectsSome_eq_any cs g, ?_, ?_⟩
+  · rw [Obj.intersectsRect, intersectsRectL_eq_any]
+  · rw [Obj.withinRect, withinRectL_eq]
+
 /-! ### binary predicates with the collection as receiver -/
 
 theorem coll_intersects_iff (x : Obj) : (Obj.coll k cs ex idx).intersects x = true ↔
     ∃ c ∈ cs, c.empty = false ∧ ∃ g ∈ x.leaves, g.empty = false ∧
-      c.rect.intersects g.rect = true ∧ c.intersects g = true := by
-  rw [Obj.intersects, intersectsParts_iff]
-  simp only [intersectsSome_iff, List.mem_filter, Bool.not_eq_true']
-  constructor
-  · rintro ⟨g, ⟨hg, hge⟩, c, hc, hce, hr, hi⟩
-    exact ⟨c, hc, hce, g, hg, hge, hr, hi⟩
-  · rintro ⟨c, hc, hce, g, hg, hge, hr, hi⟩
-    exact ⟨g, ⟨hg, hge⟩, c, hc, hce, hr, hi⟩
+      c.rect.intersects g.rect = true ∧ c.intersects g = true :=
+  collR_intersects_iff x
 
 theorem coll_contains_iff (x : Obj) : (Obj.coll k cs ex idx).contains x = true ↔
     (Obj.coll k cs ex idx).empty = false ∧ (∃ g ∈ x.leaves, g.empty = false) ∧
     ∀ g ∈ x.leaves, g.empty = false →
-      ∃ c ∈ cs, c.empty = false ∧ c.rect.intersects g.rect = true ∧ c.contains g = true := by
-  rw [Obj.contains]
-  by_cases he : (Obj.coll k cs ex idx).empty = true
-  · simp [he]
-  · simp only [he, Bool.false_eq_true, if_false, Bool.and_eq_true, Bool.not_eq_true',
-      List.isEmpty_eq_false_iff_exists_mem, containsAll_iff, containsSome_iff, List.mem_filter]
-    simp only [Bool.not_eq_true] at he
-    simp only [true_and]
-    constructor
-    · rintro ⟨⟨g, hg, hge⟩, h⟩
-      exact ⟨⟨g, hg, hge⟩, fun g hg hge => h g ⟨hg, hge⟩⟩
-    · rintro ⟨⟨g, hg, hge⟩, h⟩
-      exact ⟨⟨g, hg, hge⟩, fun g hg => h g hg.1 hg.2⟩
+      ∃ c ∈ cs, c.empty = false ∧ c.rect.intersects g.rect = true ∧ c.contains g = true :=
+  collR_contains_iff x
 
 /-! ### the eight Spatial methods -/
 
 theorem coll_withinRect_iff (r : Box) : (Obj.coll k cs ex idx).withinRect r = true ↔
     (Obj.coll k cs ex idx).empty = false ∧
-    ∀ c ∈ cs, c.empty = false ∧ c.rect.intersects r = true ∧ c.withinRect r = true := by
-  rw [Obj.withinRect, withinRectL_eq]
-  by_cases he : (Obj.coll k cs ex idx).empty = true
-  · simp [he]
-  · simp only [he, Bool.false_eq_true, if_false, within_count_iff]
-    simp only [Bool.not_eq_true] at he
-    simp
+    ∀ c ∈ cs, c.empty = false ∧ c.rect.intersects r = true ∧ c.withinRect r = true :=
+  collR_withinRect_iff r
 
 theorem coll_withinPoint_iff (q : Pt) : (Obj.coll k cs ex idx).withinPoint q = true ↔
     (Obj.coll k cs ex idx).empty = false ∧
-    ∀ c ∈ cs, c.empty = false ∧ c.rect.intersects q.box = true ∧ c.withinPoint q = true := by
-  rw [Obj.withinPoint, withinPointL_eq]
-  by_cases he : (Obj.coll k cs ex idx).empty = true
-  · simp [he]
-  · simp only [he, Bool.false_eq_true, if_false, within_count_iff]
-    simp only [Bool.not_eq_true] at he
-    simp
+    ∀ c ∈ cs, c.empty = false ∧ c.rect.intersects q.box = true ∧ c.withinPoint q = true :=
+  collR_withinPoint_iff q
 
 theorem coll_withinLine_iff (l : Line) : (Obj.coll k cs ex idx).withinLine l = true ↔
     (Obj.coll k cs ex idx).empty = false ∧
-    ∀ c ∈ cs, c.empty = false ∧ c.rect.intersects l.rect = true ∧ c.withinLine l = true := by
-  rw [Obj.withinLine, withinLineL_eq]
-  by_cases he : (Obj.coll k cs ex idx).empty = true
-  · simp [he]
-  · simp only [he, Bool.false_eq_true, if_false, within_count_iff]
-    simp only [Bool.not_eq_true] at he
-    simp
+    ∀ c ∈ cs, c.empty = false ∧ c.rect.intersects l.rect = true ∧ c.withinLine l = true :=
+  collR_withinLine_iff l
 
 theorem coll_withinPoly_iff (p : Poly) : (Obj.coll k cs ex idx).withinPoly p = true ↔
     (Obj.coll k cs ex idx).empty = false ∧
-    ∀ c ∈ cs, c.empty = false ∧ c.rect.intersects p.rect = true ∧ c.withinPoly p = true := by
-  rw [Obj.withinPoly, withinPolyL_eq]
-  by_cases he : (Obj.coll k cs ex idx).empty = true
-  · simp [he]
-  · simp only [he, Bool.false_eq_true, if_false, within_count_iff]
-    simp only [Bool.not_eq_true] at he
-    simp
+    ∀ c ∈ cs, c.empty = false ∧ c.rect.intersects p.rect = true ∧ c.withinPoly p = true :=
+  collR_withinPoly_iff p
 
 theorem coll_intersectsRect_iff (r : Box) : (Obj.coll k cs ex idx).intersectsRect r = true ↔
-    ∃ c ∈ cs, c.empty = false ∧ c.rect.intersects r = true ∧ c.intersectsRect r = true := by
-  rw [Obj.intersectsRect, intersectsRectL_iff]
+    ∃ c ∈ cs, c.empty = false ∧ c.rect.intersects r = true ∧ c.intersectsRect r = true :=
+  collR_intersectsRect_iff r
 
 theorem coll_intersectsPoint_iff (q : Pt) : (Obj.coll k cs ex idx).intersectsPoint q = true ↔
-    ∃ c ∈ cs, c.empty = false ∧ c.rect.intersects q.box = true ∧ c.intersectsPoint q = true := by
-  rw [Obj.intersectsPoint, intersectsPointL_iff]
+    ∃ c ∈ cs, c.empty = false ∧ c.rect.intersects q.box = true ∧ c.intersectsPoint q = true :=
+  collR_intersectsPoint_iff q
 
 theorem coll_intersectsLine_iff (l : Line) : (Obj.coll k cs ex idx).intersectsLine l = true ↔
-    ∃ c ∈ cs, c.empty = false ∧ c.rect.intersects l.rect = true ∧ c.intersectsLine l = true := by
-  rw [Obj.intersectsLine, intersectsLineL_iff]
+    ∃ c ∈ cs, c.empty = false ∧ c.rect.intersects l.rect = true ∧ c.intersectsLine l = true :=
+  collR_intersectsLine_iff l
 
 theorem coll_intersectsPoly_iff (p : Poly) : (Obj.coll k cs ex idx).intersectsPoly p = true ↔
-    ∃ c ∈ cs, c.empty = false ∧ c.rect.intersects p.rect = true ∧ c.intersectsPoly p = true := by
-  rw [Obj.intersectsPoly, intersectsPolyL_iff]
+    ∃ c ∈ cs, c.empty = false ∧ c.rect.intersects p.rect = true ∧ c.intersectsPoly p = true :=
+  collR_intersectsPoly_iff p
 
 /-! ### the child index is only an accelerator -/
 
@@ -272,6 +249,7 @@ end Geo
 #print axioms Geo.searchChildren_sublist
 #print axioms Geo.searchChildren_length
 #print axioms Geo.searchChildren_nodup
+#print axioms Geo.coll_methods_via_search
 #print axioms Geo.coll_intersects_iff
 #print axioms Geo.coll_contains_iff
 #print axioms Geo.coll_withinRect_iff
